@@ -16,6 +16,8 @@ type vScriptConn struct {
 	seg    int
 	werr   bool
 	wshort bool
+	firstw int // length of the first write (first flight incl. padding)
+	writes int
 }
 
 func (c *vScriptConn) Read(b []byte) (int, error) {
@@ -52,6 +54,10 @@ func (c *vScriptConn) Write(b []byte) (int, error) {
 		k = vFreshInt("wk")
 		vAssume(k >= 1 && k <= len(b))
 	}
+	if c.writes == 0 {
+		c.firstw = k
+	}
+	c.writes++
 	c.out = append(c.out, b[:k]...)
 	return k, nil
 }
